@@ -272,7 +272,7 @@ def parse_rvalue(s):
                 pass
         return ('use', parse_operand(s))
     if s.startswith('&'):
-        m = re.match(r'^&(mut |raw const |raw mut |fake shallow |fake )?(.*)$', s)
+        m = re.match(r'^&(mut |raw const \(fake\) |raw mut \(fake\) |raw const |raw mut |fake shallow |fake )?(.*)$', s)
         return ('ref', (m.group(1) or '').strip(), parse_place(m.group(2)))
     m = re.match(r'^(\w+)\((.*)\)$', s)
     if m and (m.group(1) in BINOPS or m.group(1) in UNOPS or m.group(1) in ('discriminant', 'Len', 'CopyForDeref')):
@@ -439,15 +439,15 @@ def parse_terminator(ln):
     return ('call', dest, callee, ops, ret_bb)
 
 
-RE_ALLOC = re.compile(r'^(alloc\d+) \((?:static: [^,]*, )?size: (\d+), align: \d+\) \{\n(.*?)^\}\n', re.M | re.S)
+RE_ALLOC = re.compile(r'^(alloc\d+) \(static: [^,]*, size: (\d+), align: \d+\) \{\n(.*?)^\}\n', re.M | re.S)
 
 
 def parse_allocs(text):
-    """{alloc id: bytes} for the plain-data allocations of the dump (those with relocations are skipped)"""
+    """{alloc id: bytes} for the plain-data STATIC allocations of the dump (those with relocations are skipped)"""
     out = {}
     for m in RE_ALLOC.finditer(text):
         name, size, body = m.group(1), int(m.group(2)), m.group(3)
-        if '╾' in body:
+        if '╾' in body or size > 200000:
             continue
         data = bytearray()
         ok = True
@@ -456,13 +456,12 @@ def parse_allocs(text):
                 continue
             parts = ln.split('│')
             hexpart = parts[1] if len(parts) >= 3 else parts[0]
-            for tok in hexpart.split():
-                if re.fullmatch(r'[0-9a-f]{2}', tok):
-                    data.append(int(tok, 16))
-                elif tok == '__':
-                    data.append(0)
-                else:
-                    ok = False
+            hp = hexpart.replace('__', '00').replace(' ', '')
+            try:
+                data += bytes.fromhex(hp)
+            except ValueError:
+                ok = False
+                break
         if ok and len(data) == size:
             out[name] = bytes(data)
     return out
